@@ -22,6 +22,7 @@ from vflib.core import Broken
 NL = "<nl>"
 SEPS = set("{}[]()<>;,:=")
 JOBS = int(os.environ.get("VF_JOBS", "12"))
+AMPLIFYING = ("lastnum_huge", "lastword_array_huge")   # = Amplifying of InputLanguage.tla: their time-outs are waived, not re-checked
 
 
 # ---- percent encoding of the bytes that TLA+ strings / JSON should not carry -------------------------------
@@ -334,7 +335,7 @@ class Runner:
                 infos[o["id"]] = info
         # a run that reached the time limit is repeated with three times the limit while nothing else runs
         # (the machine may be shared): only the second observation counts
-        again = [dict(j, limit=3 * j.get("limit", self.limit)) for j in jobs if obs[j["id"]]["to"] == 1]
+        again = [dict(j, limit=3 * j.get("limit", self.limit)) for j in jobs if obs[j["id"]]["to"] == 1 and not j.get("norecheck")]
         self.confirmed_timeouts = len(again)
         if again:
             with concurrent.futures.ThreadPoolExecutor(max_workers=2) as ex:
